@@ -321,6 +321,10 @@ def gen_species(rng, tier, focus):
         ref["positions"] = (np.array(ref["positions"]) + off).tolist()
         tgt["positions"] = (np.array(tgt["positions"]) + off).tolist()
         info["far_from_origin"] = True
+    if focus == "C04" and rng.random() < 0.12:
+        # residue names that begin with a digit ("2MP", "3HB"): a name that looks like the tail of a number
+        ref["resnames"] = [str(2 + (ord(rn[-1]) % 7)) + rn[:3] for rn in ref["resnames"]]
+        info["digit_resnames"] = True
     scale = 1.0 if rng.random() < 0.25 else rng.choice([0.5, 0.5, rng.uniform(0.01, 2.0), 2.0, rng.uniform(0.3, 1.0)])
     if focus in ("C02", "C03", "C04") and rng.random() < 0.04:
         scale = 0.0          # "all scale factors": everything collapses onto the anchors, which still move with the argument
@@ -528,7 +532,8 @@ def gen_ops(rng, tier, focus, ref, tgt, info, n_res):
                     n_calls += 1
         elif k == "reject":
             ops.append({"op": "reject", "kind": rng.choice(["name", "atom_name", "extra_atom", "none", "residue", "array", "str",
-                                                            "moleculetop", "permuted", "fewer"])})
+                                                            "moleculetop", "permuted", "fewer", "residue_relabelled",
+                                                            "residue_relabelled"])})
             if rng.random() < 0.4:
                 # the SAME wrong object (or a copy of it, which shares its topology) is offered again, possibly with other
                 # rejected things in between: a rejection must not depend on what was offered before
@@ -1560,6 +1565,17 @@ def make_rejected(kind, ref_spec, ref_pos0):
             for key in ("atom_names", "resnames", "resids", "positions"):
                 spec[key] = list(spec[key])[:-1]
             spec["edges"] = [list(e) for e in spec["edges"] if n - 1 not in e]
+    elif kind == "residue_relabelled":
+        # the same atoms under other residue labels: where the residue names begin with a digit, that digit moves from the
+        # name to the end of the residue number (residue 1 "2AB" -> residue 12 "AB": number and name written one after the
+        # other read the same); otherwise the first residue simply gets another name
+        rn = list(spec["resnames"])
+        if all(x[:1].isdigit() and len(x) > 1 for x in rn):
+            spec["resids"] = [int(str(ri) + x[0]) for ri, x in zip(spec["resids"], rn)]
+            spec["resnames"] = [x[1:] for x in rn]
+        else:
+            first = rn[0]
+            spec["resnames"] = [("Q" + x[1:] if x == first else x) for x in rn]
     elif kind == "extra_atom":
         n = len(spec["atom_names"])
         spec["atom_names"] = list(spec["atom_names"]) + ["XQ1"]
